@@ -8,12 +8,17 @@ import (
 	"bufio"
 	"bytes"
 	"encoding/json"
+	"errors"
 	"fmt"
+	"io"
 	"os"
 	"os/exec"
 	"path/filepath"
 	"strings"
+	"sync"
 	"time"
+
+	ht "github.com/ogen-go/ogen/http"
 
 	"verif/internal/core"
 	"verif/internal/gencode"
@@ -208,6 +213,9 @@ func Check(r *core.Run) error {
 		}
 		r.Cov("binding_selftest", "corrupted Return rejected: "+vs[0].Kind)
 	}
+	if err := bodyWriterJoined(r); err != nil {
+		return err
+	}
 	r.Cov("calls", len(pp.Calls))
 	r.Cov("concurrent_phases", len(phases))
 	r.Cov("returns_validated", nRet)
@@ -232,6 +240,80 @@ func Check(r *core.Run) error {
 			}
 			r.Violate(what, map[string]any{"event": e, "verdict": v.Kind})
 		}
+	}
+	return nil
+}
+
+// bodyWriterJoined drives ht.CreateBodyWriter (the streamed request bodies of generated
+// clients: multipart, JSON streaming, base64 streams) as the transport does: the writer callback
+// runs in its own goroutine, the reader takes some chunks and closes the body -- before, at or
+// after the end. Events BwStart / BwExit (the callback returned; it keeps working for a moment
+// after a failed write, like a generated encoder that looks at errors at the end) / BwClosed
+// (Close returned) are validated by the acceptor of spec/Isolation.tla.
+func bodyWriterJoined(r *core.Run) error {
+	var mu sync.Mutex
+	var lines [][]byte
+	emit := func(e string, i int) {
+		mu.Lock()
+		b, _ := json.Marshal(event{E: e, I: i, H: ""})
+		lines = append(lines, b)
+		mu.Unlock()
+	}
+	chunk := bytes.Repeat([]byte("x"), 1024)
+	id := 0
+	var what []string
+	for _, nChunks := range []int{0, 1, 3, 8} {
+		for read := 0; read <= nChunks+1; read++ {
+			for _, cbErr := range []bool{false, true} {
+				i := id
+				id++
+				what = append(what, fmt.Sprintf("body of %d chunks, %d read before Close, callback error=%v", nChunks, read, cbErr))
+				body := ht.CreateBodyWriter(func(w io.Writer) error {
+					emit("BwStart", i)
+					defer emit("BwExit", i)
+					var werr error
+					for c := 0; c < nChunks; c++ {
+						if _, err := w.Write(chunk); err != nil && werr == nil {
+							werr = err
+						}
+					}
+					if werr != nil {
+						time.Sleep(3 * time.Millisecond)
+						return werr
+					}
+					if cbErr {
+						return errors.New("encode failed")
+					}
+					return nil
+				})
+				buf := make([]byte, len(chunk))
+				for k := 0; k < read; k++ {
+					if _, err := io.ReadFull(body, buf); err != nil {
+						break
+					}
+				}
+				body.Close()
+				emit("BwClosed", i)
+				time.Sleep(8 * time.Millisecond) // a writer that was not joined gets to finish: the trace is complete
+			}
+		}
+	}
+	mu.Lock()
+	defer mu.Unlock()
+	r.Cov("streamed_body_scenarios", id)
+	r.AddEvals(int64(len(lines)))
+	vs, err := obs.Check(r, lines, obs.CheckOpts{Module: "IsolationCheck", Cfg: obs.StdCfg(), ChunkSize: len(lines) + 1, Parallel: 1, Timeout: 10 * time.Minute})
+	if err != nil {
+		return err
+	}
+	for _, v := range vs {
+		var e event
+		json.Unmarshal(lines[v.Index], &e)
+		d := ""
+		if e.I < len(what) {
+			d = what[e.I]
+		}
+		r.Violate(fmt.Sprintf("ht.CreateBodyWriter, %s: event %s: %s", d, e.E, v.Kind), map[string]any{"event": e, "verdict": v.Kind})
 	}
 	return nil
 }
